@@ -347,3 +347,49 @@ pub fn gen_c08x(rng: &mut Rng, _k: usize, _tier: &str) -> J {
     let (sql, ordered) = templates[rng.below(templates.len() as u64) as usize].clone();
     json!({"sql": sql, "ordered": ordered, "data_seed": rng.next() % 1000000})
 }
+
+// ------------------------------------------------------------------------------------------------
+// stream `values`: literal value lists built through the builder — declared uniqueness vs the Lean model (`valuesUnique`),
+// and the executed rows against the declared constraint, size and type (alone and joined to a table with a unique key)
+
+pub fn gen_values(rng: &mut Rng, _k: usize, _tier: &str) -> J {
+    let n = 1 + rng.below(6) as usize;
+    let pool = 1 + rng.below(4) as i64 + if rng.chance(1, 2) { 3 } else { 0 };
+    let vals: Vec<i64> = (0..n).map(|_| rng.range(0, pool)).collect();
+    json!({"vals": vals, "kind": *rng.pick(&["int", "int", "str", "float"]), "join": rng.chance(1, 3), "data_seed": rng.next() % 1000000})
+}
+
+pub fn eval_values(case: &J) -> Outcome {
+    use qrlew::expr::Expr;
+    let mut out = Outcome::new();
+    let vals: Vec<i64> = case["vals"].as_array().unwrap().iter().map(|v| v.as_i64().unwrap()).collect();
+    let kind = case["kind"].as_str().unwrap();
+    let lits: Vec<Value> = vals.iter().map(|v| match kind { "int" => Value::from(*v), "str" => Value::from(format!("s{v}")), _ => Value::from(*v as f64 + 0.5) }).collect();
+    let mut sorted = vals.clone(); sorted.sort(); let adjacent_only = sorted.windows(2).any(|w| w[0] == w[1]) && !vals.windows(2).any(|w| w[0] == w[1]);
+    out.tag(&format!("kind={kind}")); out.tag(if adjacent_only { "repeat-not-adjacent" } else if sorted.windows(2).any(|w| w[0] == w[1]) { "repeat-adjacent" } else { "distinct" });
+    let built = guarded(|| -> Relation { Relation::values().name("v").values(lits.clone()).build() });
+    let v = match built { Ok(r) => r, Err((loc, msg)) => { out.imp = json!("panic"); out.fail(&format!("C18/values/build-panic/{}", site(&loc, &msg)), msg); return out; } };
+    out.imp = json!(v.schema()[0].has_unique_or_primary_key_constraint());
+    let rel = if case["join"].as_bool().unwrap() && kind == "int" {
+        let rels = world2();
+        let t3 = rels.iter().find(|(p, _)| p.last().map(|x| x == "t3").unwrap_or(false)).map(|(_, r)| (**r).clone()).unwrap();
+        out.tag("joined");
+        match guarded(|| -> Relation { Relation::join().inner(Expr::val(true)).on_eq("k", "v").left(t3.clone()).right(v.clone()).build() }) { Ok(r) => r, Err((loc, msg)) => { out.fail(&format!("C18/values/join-panic/{}", site(&loc, &msg)), msg); return out; } }
+    } else { v.clone() };
+    let mut rng = Rng::new(case["data_seed"].as_u64().unwrap());
+    let data = gen_data2(&mut rng);
+    let db = data.load();
+    let (names, rows) = match db.run(&rel) { Ok(x) => x, Err(e) => { out.fail("C17/sqlite/rendered-not-executable/values", format!("{}: {e}", crate::exec::render(&rel))); return out; } };
+    let what = format!("values {:?}{}", lits.iter().map(|l| l.to_string()).collect::<Vec<_>>(), if out.tags.iter().any(|t| t == "joined") { " joined to t3 on k = v" } else { "" });
+    for (i, f) in rel.schema().iter().enumerate() {
+        let ci = names.iter().position(|n| n == f.name()).unwrap_or(i);
+        if f.has_unique_or_primary_key_constraint() {
+            let mut ks: Vec<String> = rows.iter().filter(|r| r[ci] != Cell::Null).map(|r| r[ci].key()).collect();
+            let before = ks.len(); ks.sort(); ks.dedup();
+            if ks.len() != before { out.fail("C14/values/duplicate-in-unique-column", format!("{what}: column `{}` is declared unique but its rows are {:?}", f.name(), rows.iter().map(|r| r[ci].to_string()).collect::<Vec<_>>())); }
+        }
+        for r in &rows { if r[ci] != Cell::Null && !mem(&f.data_type(), &cell_value(&r[ci], &f.data_type())) { out.fail("C07/values/cell-outside-type", format!("{what}: column `{}` is declared {} but a row holds {}", f.name(), f.data_type(), r[ci])); break; } }
+    }
+    if !rel.size().contains(&(rows.len() as i64)) { out.fail("C07/values/size-outside-bounds", format!("{what}: declared size {} but {} rows", rel.size(), rows.len())); }
+    out
+}
